@@ -1290,7 +1290,7 @@ class Reaction(Object):
             if the_coefficient == 0:
                 # make the metabolite aware that it no longer participates
                 # in this reaction
-                metabolite._reaction.remove(self)
+                metabolite._reaction.discard(self)
                 self._metabolites.pop(metabolite)
 
         context = get_context(self)
